@@ -214,7 +214,9 @@ func parseRaceLogs(glob string) []raceReport {
 	}
 	top := func(st []string) string {
 		for _, f := range st {
-			if strings.HasPrefix(f, "runtime.") || strings.HasPrefix(f, "sync.") || strings.HasPrefix(f, "sync/atomic.") || strings.HasPrefix(f, "reflect.") {
+			if strings.HasPrefix(f, "runtime.") || strings.HasPrefix(f, "sync.") || strings.HasPrefix(f, "sync/atomic.") || strings.HasPrefix(f, "reflect.") ||
+				strings.HasPrefix(f, "verif.local/mc/coop/vmap.") {
+				// (vmap: the shim that stands for a range statement of the code under test; the access belongs to its caller)
 				continue
 			}
 			return f
